@@ -111,89 +111,56 @@ def run_workers(pid, units, tier, seed, nworkers, unit_timeout):
         env.setdefault(v, "1")
     results = {}
     crashed = {}
-    procs = []
-    overall_deadline = time.time() + max(600, unit_timeout * (len(units) / max(1, nworkers) + 2))
-
-    def spawn(wi, bc):
-        log = open(os.path.join(work, f"worker-{wi}-{time.time_ns()}.log"), "w")
-        p = subprocess.Popen(
-            [sys.executable, "-m", "vf.worker", pid, work, str(unit_timeout), "1" if bc else "0"],
-            env=env,
-            stdout=log,
-            stderr=subprocess.STDOUT,
-            cwd=common.VERIF,
-        )
-        p._log = log.name
-        p._bc = bc
-        return p
+    overall = max(900, unit_timeout * (len(units) / max(1, nworkers) + 2))
 
     n_bc = sum(1 for u in units if u.get("boundscheck"))
     n_plain = len(units) - n_bc
-    # warm phase: one writer per numba mode fills the shared cache (see common.setup_env)
-    warmers = []
-    for bc, n in ((False, n_plain), (True, n_bc)):
-        if n:
-            wlog = open(os.path.join(work, f"warm-{int(bc)}.log"), "w")
-            warmers.append(
-                subprocess.Popen(
-                    [sys.executable, "-m", "vf.worker", pid, work, "900", "1" if bc else "0", "warm"],
-                    env=env, stdout=wlog, stderr=subprocess.STDOUT, cwd=common.VERIF,
-                )
-            )
-    for p in warmers:
-        p.wait()
     w_bc = 0 if not n_bc else max(1, min(n_bc, round(nworkers * n_bc / len(units))))
     w_plain = 0 if not n_plain else max(1, min(n_plain, nworkers - w_bc))
-    for wi in range(w_plain):
-        procs.append(spawn(wi, False))
-    for wi in range(w_bc):
-        procs.append(spawn(100 + wi, True))
-    respawns = 0
-    while procs:
-        time.sleep(0.05)
-        for p in list(procs):
-            rc = p.poll()
-            if rc is None:
-                if time.time() > overall_deadline:
-                    p.kill()
-                continue
-            procs.remove(p)
-            if rc != 0:
-                # find unit claimed by this worker without result
-                mine = []
-                for name in os.listdir(os.path.join(work, "claim")):
-                    with open(os.path.join(work, "claim", name)) as f:
-                        owner = f.read().strip()
-                    if owner == str(p.pid) and not os.path.exists(
-                        os.path.join(work, "out", name + ".json")
-                    ):
-                        mine.append(int(name))
-                tail = ""
-                try:
-                    with open(p._log) as f:
-                        tail = f.read()[-3000:]
-                except Exception:
-                    pass
-                for k in mine:
-                    crashed[k] = (rc, tail)
-                claimed = set(os.listdir(os.path.join(work, "claim")))
-                unclaimed = any(
-                    str(k) not in claimed and bool(u.get("boundscheck")) == p._bc
-                    for k, u in enumerate(units)
-                )
-                if unclaimed and respawns < 4 * nworkers and time.time() < overall_deadline:
-                    respawns += 1
-                    procs.append(spawn(1000 + respawns, p._bc))
+
+    def start(bc, mode, n=None):
+        log = open(os.path.join(work, f"{mode}-{int(bc)}.log"), "w")
+        cmd = [sys.executable, "-m", "vf.worker", pid, work, str(unit_timeout), "1" if bc else "0", mode]
+        if n is not None:
+            cmd.append(str(n))
+        p = subprocess.Popen(cmd, env=env, stdout=log, stderr=subprocess.STDOUT, cwd=common.VERIF)
+        p._log = log.name
+        return p
+
+    # warm phase: one writer per numba mode fills the shared cache (see common.setup_env)
+    warmers = [start(bc, "warm") for bc, n in ((False, n_plain), (True, n_bc)) if n]
+    for p in warmers:
+        try:
+            p.wait(timeout=1800)
+        except subprocess.TimeoutExpired:
+            p.kill()
+    if os.environ.get("VERIF_DEBUG"):
+        print(f"[runner] warm phase done {time.time():.1f}")
+    # work phase: one zygote per numba mode forks the unit workers
+    zygotes = [start(bc, "zygote", n) for bc, n in ((False, w_plain), (True, w_bc)) if n]
+    deadline = time.time() + overall
+    for p in zygotes:
+        try:
+            p.wait(timeout=max(1, deadline - time.time()))
+        except subprocess.TimeoutExpired:
+            p.kill()
+    tails = {}
+    for p in zygotes:
+        try:
+            with open(p._log) as f:
+                tails[p._log] = f.read()[-3000:]
+        except Exception:
+            pass
     for k in range(len(units)):
         path = os.path.join(work, "out", f"{k}.json")
         if os.path.exists(path):
             with open(path) as f:
-                results[k] = json.load(f)
-    logs = ""
-    if crashed or len(results) < len(units):
-        # keep logs for diagnosis
-        pass
-    else:
+                r = json.load(f)
+            if "crashed" in r:
+                crashed[k] = (r["crashed"], "\n".join(tails.values()))
+            else:
+                results[k] = r
+    if not crashed and len(results) == len(units):
         shutil.rmtree(work, ignore_errors=True)
     return results, crashed, work
 
